@@ -39,7 +39,7 @@ theorem loop_sim {cfg : Cfg} {vs : List View} (wf : GroupWF cfg vs) (hne : vs â‰
           | ok ai'' =>
             have : (ArgResult.consumed == ArgResult.unknown) = false := rfl
             simp only [this, Bool.false_eq_true, if_false, Res.bind_ok]
-            exact ih H' ms' ai'' hinv' hrel' (step_plain hp'.argv hs)
+            exact ih H' ms' ai'' hinv' hrel' (step_plain hp' hs)
           | throw e => exact âŸ¨_, rfl, Or.inl rflâŸ©
           | oob w => exact âŸ¨_, rflâŸ©
       | throw e =>
